@@ -30,10 +30,12 @@ def gen_type(rng, depth=0, allow_ann=True):
         return ("ann", gen_type(rng, depth, allow_ann=False))
     if depth >= 3 or r < 0.45:
         return ("leaf", rng.choice(list(LEAVES)))
-    k = rng.choice(["opt", "list", "dictv", "newtype", "list", "newtype"])
+    k = rng.choice(["opt", "list", "dictv", "newtype", "list", "newtype", "union"])
     inner = gen_type(rng, depth + 1, allow_ann=True)
-    if k == "opt" and (inner[0] == "opt" or (inner[0] == "ann" and inner[1][0] == "opt")):
-        inner = ("leaf", "date")
+    if k == "opt" and (inner[0] in ("opt", "union") or (inner[0] == "ann" and inner[1][0] == "opt")):
+        inner = ("leaf", "date")        # typing would flatten Optional[Optional[..]] / Optional[Union[..]]
+    if k == "union" and inner[0] in ("opt", "union"):
+        inner = ("leaf", "dec")
     if k == "newtype" and inner[0] == "ann":
         inner = inner[1]            # NewType over an Annotated alias is not a class-like supertype
     return (k, inner)
@@ -80,7 +82,7 @@ class Term:
             self.nodes.append({"kind": "leaf", "leaf": t[1], "ex": name, "or": None, "ann": ann_name, "step": None})
             return name
         inner = self._build(t[1], None)
-        name = self._name({"opt": "O", "list": "Q", "dictv": "M", "newtype": "N"}[kind])
+        name = self._name({"opt": "O", "list": "Q", "dictv": "M", "newtype": "N", "union": "U"}[kind])
         if kind == "opt":
             self.defs.append(f"{name} = Optional[{inner}]")
             self.nodes.append({"kind": "opt", "ex": name, "or": None, "ann": ann_name, "step": "TOptional"})
@@ -90,6 +92,10 @@ class Term:
         elif kind == "dictv":
             self.defs.append(f"{name} = Dict[str, {inner}]")
             self.nodes.append({"kind": "dict", "ex": name, "or": "dict", "ann": ann_name, "step": "TElement"})
+        elif kind == "union":
+            # the observed value always belongs to the first member; the second member (int) never accepts it
+            self.defs.append(f"{name} = Union[{inner}, int]")
+            self.nodes.append({"kind": "union", "ex": name, "or": None, "ann": ann_name, "step": "TMember"})
         else:
             self.defs.append(f'{name} = NewType("{name}", {inner})')
             self.nodes.append({"kind": "nt", "ex": name, "or": None, "ann": ann_name, "step": "TNewType"})
@@ -111,6 +117,11 @@ class Term:
 # cases
 # ---------------------------------------------------------------------------------------
 
+def is_cls_link(ln):
+    """links that go on to another class: a dataclass-typed field, or a collection of that dataclass"""
+    return ln in ("field", "field_coll")
+
+
 def slot_name(lvl, node, which):
     return f"{lvl}.n{node}.{which}"
 
@@ -119,8 +130,8 @@ def gen_path_case(rng) -> dict:
     entry = rng.choice(list(ENTRY_LEVELS))
     t = gen_type(rng)
     term = Term(t)
-    links = [rng.choice(["field", "self_opt", "self_list"]) for _ in range(rng.choice([0, 1, 1, 2]))]
-    ncls = 1 + sum(1 for x in links if x == "field")
+    links = [rng.choice(["field", "field_coll", "self_opt", "self_list"]) for _ in range(rng.choice([0, 1, 1, 2]))]
+    ncls = 1 + sum(1 for x in links if is_cls_link(x))
     # the called class itself may lack ADD_DIALECT_SUPPORT: from_dict(..., dialect=D) is then accepted and ignored
     # (every generated from_dict has a `dialect` parameter), to_dict(dialect=D) would be a TypeError and is not called
     supports = [rng.random() < 0.85] + [rng.random() < 0.65 for _ in range(ncls - 1)]
@@ -156,7 +167,7 @@ def call_reaches(case) -> bool:
         return False
     ci = 0
     for ln in case["links"]:
-        if ln == "field":
+        if is_cls_link(ln):
             if not (case["supports"][ci] and case["supports"][ci + 1]):
                 return False
             ci += 1
@@ -302,8 +313,13 @@ def build_source(case, prelude: str) -> str:
     # classes: C0 is called; the last class owns the observed field x.  Self links stay in the class.
     links = case["links"]
     cls_links = [[]]            # per class: list of self links hanging on it, in order
+    coll_of = {}                # class index -> container of the link to the next class ("list" / "dict" / None)
+    origins = {nd["or"] for nd in term.nodes if nd["or"]}
     for ln in links:
-        if ln == "field":
+        if is_cls_link(ln):
+            # the container must not itself be a registered key of the observed field's term
+            coll_of[len(cls_links) - 1] = (None if ln == "field" else "list" if "list" not in origins
+                                           else "dict" if "dict" not in origins else None)
             cls_links.append([])
         else:
             cls_links[-1].append(ln)
@@ -319,7 +335,8 @@ def build_source(case, prelude: str) -> str:
         if owner:
             body.append(f"x: FT = field(default=None, metadata={{{', '.join(md)}}})")
         else:
-            body.append(f"child: 'C{ci + 1}' = None")
+            ann = {None: f"'C{ci + 1}'", "list": f"List['C{ci + 1}']", "dict": f"Dict[str, 'C{ci + 1}']"}[coll_of[ci]]
+            body.append(f"child: {ann} = None")
         for j, ln in enumerate(cls_links[ci]):
             body.append(f"nxt{j}: Optional[Self] = None" if ln == "self_opt" else f"kids{j}: Tuple[Self, ...] = ()")
         cfg = []
@@ -348,14 +365,14 @@ def build_source(case, prelude: str) -> str:
     c = 0
     for ln in links:
         seq.append((c, ln))
-        if ln == "field":
+        if is_cls_link(ln):
             c += 1
     # positions of self links per class
     counters = {}
     steps = []
     for (c, ln) in seq:
-        if ln == "field":
-            steps.append((c, "child", None))
+        if is_cls_link(ln):
+            steps.append((c, "child", coll_of[c]))
         else:
             j = counters.get(c, 0)
             counters[c] = j + 1
@@ -364,8 +381,9 @@ def build_source(case, prelude: str) -> str:
     inner_wire = "{'x': WIRE}"
     for (c, kind, j) in reversed(steps):
         if kind == "child":
-            inner_obj = f"C{c}(child={inner_obj})"
-            inner_wire = "{'child': " + inner_wire + "}"
+            wrap = {None: ("{}", "{}"), "list": ("[{}]", "[{}]"), "dict": ('{{"k": {}}}', "{{'k': {}}}")}[j]
+            inner_obj = f"C{c}(child={wrap[0].format(inner_obj)})"
+            inner_wire = "{'child': " + wrap[1].format(inner_wire) + "}"
         elif kind == "self_opt":
             inner_obj = f"C{c}(nxt{j}={inner_obj})"
             inner_wire = "{'nxt" + str(j) + "': " + inner_wire + "}"
@@ -374,7 +392,8 @@ def build_source(case, prelude: str) -> str:
             inner_wire = "{'kids" + str(j) + "': [" + inner_wire + "]}"
     for (c, kind, j) in steps:
         if kind == "child":
-            sel_s += "['child']"; sel_d += ".child"
+            ix = {None: "", "list": "[0]", "dict": "['k']"}[j]
+            sel_s += "['child']" + ix; sel_d += ".child" + ix
         elif kind == "self_opt":
             sel_s += f"['nxt{j}']"; sel_d += f".nxt{j}"
         else:
@@ -465,8 +484,10 @@ def coq_case(case, d, obs) -> str:
         return ents
 
     links = case["links"]
-    ncls = 1 + sum(1 for x in links if x == "field")
+    ncls = 1 + sum(1 for x in links if is_cls_link(x))
     cls = [f"(KObj {150 + i})" for i in range(ncls)]
+    origins = {nd["or"] for nd in term.nodes if nd["or"]}
+    coll_kind = None if "list" in origins and "dict" in origins else ("list" if "list" not in origins else "dict")
     mixin = entry != "codec_dc"
     flags = "[" + "; ".join(f"({cls[i]}, {'true' if (mixin and case['supports'][i]) else 'false'})" for i in range(ncls)) + "]"
     cfgs = []
@@ -497,8 +518,8 @@ def coq_case(case, d, obs) -> str:
     ci = 0
     seqs = []
     for ln in links:
-        if ln == "field":
-            seqs.append(("field", ci))
+        if is_cls_link(ln):
+            seqs.append(("field" if (ln == "field" or coll_kind is None) else "field_coll", ci))
             ci += 1
         else:
             seqs.append((ln, ci))
@@ -509,6 +530,10 @@ def coq_case(case, d, obs) -> str:
     for k, (ln, c) in enumerate(seqs):
         if ln == "field":
             d0, inner = cls[c + 1], []
+        elif ln == "field_coll":
+            # List['C'] / Dict[str, 'C']: a collection node (exact key 160+c, origin 170/171), then its element
+            d0, inner = f"(KObj {160 + c})", [f"NType TElement {cls[c + 1]}"]
+            org.append(f"((KObj {160 + c}), (KObj {170 if coll_kind == 'list' else 171}))")
         elif ln == "self_opt":
             d0, inner = kopt, [f"NType TOptional {kself}"]
         else:
@@ -518,7 +543,7 @@ def coq_case(case, d, obs) -> str:
         else:
             path.append(f"NField {'true' if prev_self else 'false'} no_fieldopts {d0}")
         path += inner
-        prev_self = ln != "field"
+        prev_self = ln in ("self_opt", "self_list")
     if first_decl is None:
         first_decl = term_decl
         root_f = fopts
